@@ -933,6 +933,9 @@ impl<A: Flavour> Case<A> {
   fn cur(&self) -> &'static A {
     unsafe { &**self.arenas.values().next().expect("no arena value") }
   }
+  fn newest(&self) -> &'static A {
+    unsafe { &**self.arenas.values().next_back().expect("no arena value") }
+  }
   fn cur_id(&self) -> u32 {
     *self.arenas.keys().next().expect("no arena value")
   }
@@ -1025,7 +1028,18 @@ impl<A: Flavour> Case<A> {
 
   /// Executes the operation; `None` = `bad-op`. The result lacks the trailing `<STATE>`.
   fn exec_in(&mut self, t: &[&str]) -> Option<String> {
-    let a = self.cur();
+    // allocations go through the current (lowest) arena value; everything that only looks at the arena, and the
+    // operations on the arena as a whole, go through the most recent value (a clone, if there is one): all values
+    // must behave as the same arena
+    let a = if matches!(
+      t[0],
+      "rd" | "rd_var" | "slices" | "checksum" | "rres" | "rewind" | "clear" | "discard_freelist" | "set_minseg" | "inc_discarded"
+        | "flush"
+    ) {
+      self.newest()
+    } else {
+      self.cur()
+    };
     let argc = |n: usize| (t.len() == n).then_some(());
     const NOHANDLE: &str = "r=nohandle";
     Some(match t[0] {
